@@ -28,11 +28,11 @@ def diffEscapeSrc : Bytes := [39, 10, 32, 32, 115, 47, 39, 92, 39, 39, 47, 39, 9
     line 149: option: guard `*\'*` pre `\'` fmt `'%sX\n'` plain `"'$option'"`
     line 162: grep: guard `*\'*` pre `"$grep -e '"` fmt `'%sX\n'` plain `"$grep -e '$1'"`
 -/
-def grepSites : List QuoteSite := [
-  ⟨99, [42, 92, 39, 42], [34, 32, 39, 34], [39, 37, 115, 88, 92, 110, 39], [34, 32, 39, 36, 49, 39, 34], [49]⟩,
-  ⟨111, [42, 92, 39, 42], [34, 36, 111, 112, 101, 114, 97, 110, 100, 115, 32, 39, 34], [39, 37, 115, 88, 92, 110, 39], [34, 36, 111, 112, 101, 114, 97, 110, 100, 115, 32, 39, 36, 111, 112, 116, 105, 111, 110, 39, 34], [111, 112, 116, 105, 111, 110]⟩,
-  ⟨149, [42, 92, 39, 42], [92, 39], [39, 37, 115, 88, 92, 110, 39], [34, 39, 36, 111, 112, 116, 105, 111, 110, 39, 34], [111, 112, 116, 105, 111, 110]⟩,
-  ⟨162, [42, 92, 39, 42], [34, 36, 103, 114, 101, 112, 32, 45, 101, 32, 39, 34], [39, 37, 115, 88, 92, 110, 39], [34, 36, 103, 114, 101, 112, 32, 45, 101, 32, 39, 36, 49, 39, 34], [49]⟩]
+def siteOptarg : QuoteSite := ⟨99, [42, 92, 39, 42], [34, 32, 39, 34], [39, 37, 115, 88, 92, 110, 39], [34, 32, 39, 36, 49, 39, 34], [49]⟩
+def siteOperands : QuoteSite := ⟨111, [42, 92, 39, 42], [34, 36, 111, 112, 101, 114, 97, 110, 100, 115, 32, 39, 34], [39, 37, 115, 88, 92, 110, 39], [34, 36, 111, 112, 101, 114, 97, 110, 100, 115, 32, 39, 36, 111, 112, 116, 105, 111, 110, 39, 34], [111, 112, 116, 105, 111, 110]⟩
+def siteOption : QuoteSite := ⟨149, [42, 92, 39, 42], [92, 39], [39, 37, 115, 88, 92, 110, 39], [34, 39, 36, 111, 112, 116, 105, 111, 110, 39, 34], [111, 112, 116, 105, 111, 110]⟩
+def sitePattern : QuoteSite := ⟨162, [42, 92, 39, 42], [34, 36, 103, 114, 101, 112, 32, 45, 101, 32, 39, 34], [39, 37, 115, 88, 92, 110, 39], [34, 36, 103, 114, 101, 112, 32, 45, 101, 32, 39, 36, 49, 39, 34], [49]⟩
+def grepSites : List QuoteSite := [siteOptarg, siteOperands, siteOption, sitePattern]
 
 /-- xzdiff.in:57  `-*\'*) cmp="$cmp '"`printf '%sX\n' "$1" | sed "$escape"`;;  -?*) cmp="$cmp '$1'";;` -/
 def diffSite : QuoteSite := ⟨57, [45, 42, 92, 39, 42], [34, 36, 99, 109, 112, 32, 39, 34], [39, 37, 115, 88, 92, 110, 39], [34, 36, 99, 109, 112, 32, 39, 36, 49, 39, 34], [49]⟩
